@@ -1027,13 +1027,17 @@ FAMILIES = [
 ]
 
 PROOF_FILES = ["C10/Model.v", "C10/QFacts.v", "C10/TokenBucket.v", "C10/Leaky.v", "C10/Sliding.v", "C10/Fixed.v",
-               "C10/Adaptive.v", "C10/Entity.v", "C10/Dist.v", "C10/Props.v"]
+               "C10/Adaptive.v", "C10/Entity.v", "C10/Dist.v", "C10/Reach.v",
+               "Base/PyLib.v", "Gen/PolicyGen.v", "C10/GenTie.v", "C10/CodeRun.v", "C10/Props.v"]
 
 TRUSTED = [
     "Coq 8.16.1 kernel (coqc, vm_compute for witnesses and case evaluation); no native_compute",
     "axioms: none for the theorems (exact-rational instance); the binary64 instance used only by the correspondence evaluates Coq's primitive floats (PrimFloat) with vm_compute",
     "CPython float arithmetic = IEEE 754 binary64 round-to-nearest-even as implemented by PrimFloat (checked on every _f case)",
     "correspondence harness harness/props/c10.py (generators, observers, in-Coq comparison ok_* of C10/Model.v)",
+    "translator harness/translate/py2coq.py + declared types (py2coq_targets.py PolicyGen): TokenBucket/LeakyBucket/SlidingWindow/FixedWindow policy methods are regenerated "
+    "from policy.py on every run and proved equal to the model functions (C10/GenTie.v, C10/CodeRun.v); trusted there: the Instant/Duration idioms of core/temporal.py "
+    "(Instant +/- float = ns +/- int(x*1e9), to_seconds = ns/1e9), constructors (not translated), AdaptivePolicy / RateLimitedEntity / Inductor / distributed limiter (model + correspondence only)",
 ]
 
 
@@ -1090,7 +1094,12 @@ def run_families(ctx, fams_n):
 
 
 def run(ctx):
+    from props import pygen
+    ok, info = pygen.regenerate("PolicyGen")      # policy.py kernels translated from $HS_REPO by py2coq
+    ctx.coverage["regenerated"] = info
     ctx.prove(PROOF_FILES, allowed_axioms=(), trusted_base=TRUSTED)
+    if not ok and ctx.pending_obligation_violation:
+        ctx.pending_obligation_violation["translator"] = info.get("error")
     n = ctx.n(60, 300)
     plan = [(fam, n) for fam in FAMILIES]
     if not ctx.quick:
